@@ -110,6 +110,8 @@ def gen(rng, k):
         seen = set()
         headers = [h for h in headers if not (h[0] in seen or seen.add(h[0]))]
     sc = {"property": ID, "entry": entry, "method": method, "path": path, "headers": headers, "container": cont, "body": body, "hostile": nh}
+    if not headers and entry != "h2" and rng.random() < 0.5:
+        sc["no_headers_arg"] = True  # headers=None rather than an empty mapping
     if body_kind != "str":
         sc["body_kind"] = body_kind
         sc["body_cuts"] = sorted(rng.randrange(0, len(body) + 1) for _ in range(rng.choice([1, 2, 3])))
@@ -192,6 +194,8 @@ def run(sc: dict) -> Result:
     w = W.World(wsc)
     w.default_listener = H.origin_factory()
     hdrs = _mk_headers(sc)
+    if sc.get("no_headers_arg") and not sc["headers"] and not sc.get("reuse_headers"):
+        hdrs = None
     body = _mk_body(sc)
     method, path = sc["method"], sc["path"]
     holder = {"obj": None}
@@ -372,12 +376,14 @@ def check_request(sc, req, res, entry):
             res.bad("header_missing_or_altered", f"caller field {name!r} values {vals!r}, on the wire {got_by_name.get(name)!r}; all wire fields {got!r}")
             return
     allowed = {}
+    # automatic lines: the statement fixes *when* they may appear, not what the library puts in Accept-Encoding / User-Agent
+    printable = lambda v: bool(v) and all(0x20 <= c < 0x7F for c in v)  # noqa: E731
     if "host" not in keys:
-        allowed[b"host"] = lambda v: v == b"h.test"
+        allowed[b"host"] = lambda v: v in (b"h.test", b"h.test:80")
     if "accept-encoding" not in keys:
-        allowed[b"accept-encoding"] = lambda v: v == b"identity"
+        allowed[b"accept-encoding"] = printable
     if "user-agent" not in keys:
-        allowed[b"user-agent"] = lambda v: v.startswith(b"python-urllib3/")
+        allowed[b"user-agent"] = printable
     if "content-length" not in keys and "transfer-encoding" not in keys:
         allowed[b"content-length"] = lambda v: v.isdigit()
         allowed[b"transfer-encoding"] = lambda v: v == b"chunked"
@@ -516,7 +522,7 @@ def check_h2(sc, req, res):
     if b"user-agent" in want and b"user-agent" not in exact:
         # the caller's name only becomes "user-agent" after h2 trimmed its whitespace: the automatic field is still legitimate
         g = gotb.get(b"user-agent", [])
-        if g and g[-1].startswith(b"python-urllib3/"):
+        if g and len(g) > len(want[b"user-agent"]):
             g.pop()
     for k, vals in want.items():
         if gotb.get(k, []) != vals:
